@@ -218,13 +218,13 @@ func emitRastCollider(c *hlib.Ctx) {
 	lw := 0.5 + 3*c.Rng.Float64()
 	r := &model2d.Rasterizer{Scale: scale, Subsamples: ss, LineWidth: lw}
 	tag := fmt.Sprintf("n=%d scale=%v ss=%d lw=%v pts=%v", n, scale, ss, lw, strings.ReplaceAll(fmt.Sprint(pts), " ", ","))
-	c.EmitSite("c12 same rastcollidersolid "+tag, guarded(func() string {
+	emitCase(c, "c12 same rastcollidersolid "+tag, "corr:c12 same/RasterizeColliderSolid", func() string {
 		return sameImg(r.RasterizeColliderSolid(coll), r.RasterizeSolid(model2d.NewColliderSolid(coll)))
-	}), "corr:c12 same/RasterizeColliderSolid")
-	c.EmitSite("c12 same rastcollider "+tag, guarded(func() string {
+	})
+	emitCase(c, "c12 same rastcollider "+tag, "corr:c12 same/RasterizeCollider", func() string {
 		hollow := model2d.NewColliderSolidHollow(coll, 0.5*lw/scale)
 		return sameImg(r.RasterizeCollider(coll), r.RasterizeSolid(hollow))
-	}), "corr:c12 same/RasterizeCollider")
+	})
 	c.Stat("c12.rast.collider_cases", 2)
 }
 
